@@ -858,6 +858,29 @@ func (w *walker) rangeStmt(s *ast.RangeStmt) {
 			loop.Count, loop.Over = Path{}, Path{}
 		}
 	}
+	// a local array built from a literal ([...]T{a, b, c}): the loop runs once per element, in order
+	if tup, isTup := w.eval(rx).(vTuple); isTup && len(tup) >= 1 && len(tup) <= 16 {
+		if _, isArr := w.info().TypeOf(rx).Underlying().(*types.Array); isArr {
+			for i, el := range tup {
+				if s.Key != nil && !isBlank(s.Key) {
+					if id, ok := s.Key.(*ast.Ident); ok {
+						if obj := w.info().Defs[id]; obj != nil {
+							w.env[obj] = vConst{V: constant.MakeInt64(int64(i))}
+						}
+					}
+				}
+				if s.Value != nil && !isBlank(s.Value) {
+					if id, ok := s.Value.(*ast.Ident); ok {
+						if obj := w.info().Defs[id]; obj != nil {
+							w.env[obj] = el
+						}
+					}
+				}
+				w.block(s.Body.List)
+			}
+			return
+		}
+	}
 	xv, ok := w.eval(rx).(vPath)
 	if !ok {
 		w.opaque(s.Pos(), "range over something that is not a receiver field")
